@@ -266,7 +266,9 @@ fn run_buf<T: Elem>(sc: &BufSc) -> BufResult {
                     }
                 }
                 BufOp::Inspect => {
-                    for i in 0..model.len() + 2 {
+                    // (beyond the live window too, up to the largest index there is)
+                    let far = [usize::MAX - 1, usize::MAX, usize::MAX / 2 + 1, i32::MAX as usize, i32::MAX as usize + 1];
+                    for i in (0..model.len() + 2).chain(far.iter().cloned()) {
                         let want = at(&model, i);
                         let g1 = buf.get(i).map(|e| e.serial());
                         let g2 = buf.copy(i).map(|e| e.serial());
@@ -755,6 +757,11 @@ pub fn execute_io(sc: &IoSc, iset: &mut InstructionSet, names: &[String]) -> IoR
     };
     if let Some(mut h) = core.hooks.take() {
         if let Some(h) = h.as_any().downcast_mut::<IoHooks>() {
+            // what run() does when it returns (for whatever reason) is part of the run: the queues
+            // still hold what the instructions and the hosts left there
+            if res.is_ok() && !core.left_envelope {
+                h.cross_check(&st, core.events, "the return of run()");
+            }
             violations.append(&mut h.violations);
             stats.probes.insert("input_reads".into(), h.reads);
             stats.probes.insert("output_writes".into(), h.writes);
